@@ -109,18 +109,23 @@ CHECKS = {
     ),
     'C08': dict(
         ref='5.8',
-        text='Theorems in coq/Properties/C08.v (partial): cutting any text into lines, and the lines into header lines, one '
-             'dropped empty separator and body, conserves every character; every paragraph that cannot be read as fields '
-             '(no field, a parser defect, a leading "From " line, a MIME container) is returned whole under "unknown"; for a '
+        text='Theorems in coq/Properties/C08.v: cutting a text into paragraphs loses no word (separators hold white space '
+             'only); cutting any text into lines, and the lines into header lines, one dropped empty separator and body, '
+             'conserves every character; every paragraph that cannot be read as fields (no field, a parser defect, a leading '
+             '"From " line, a MIME container) is returned whole under "unknown"; for a paragraph read as fields, the words '
+             'after the colon of every declaration line and the words of every continuation line are exactly the words of the '
+             'parsed values (invariant of the header state machine over line lists of any length), every parsed name is a '
+             'key (lower-cased), every word of every value - merged or not, single- or multi-line - is found under its key '
+             '(invariant of the merge loop over item lists of any length), the words of the body under "unknown"; for a '
              'repeated name every distinct single-line value is kept under the first occurrence, LF-separated, in order of '
-             'first appearance, and a value already merged is skipped without replacing the merged value (invariant over '
-             'item lists of any length). NOT proved: that every word of a header line reaches a field name or value - this '
-             'goes through the modelled fragment of the standard email package and is decided by co-execution of the model with '
-             'email.message_from_string / get_paragraph_data / get_paragraphs_data / Debian822(text) on header-ish, control-file, '
-             'well-formed and raw Unicode texts, all sequences of <=5/6 repeated-name fields, and by the executable statement '
-             '(every word of the input is covered; merge equation).',
+             'first appearance, a value already merged is skipped without replacing the merged value. Partial only in this: '
+             'a header line starting with "From " (the mailbox envelope corner of the standard parser) is excluded by '
+             'hypothesis in the paragraph theorem. The model is co-executed with email.message_from_string / '
+             'get_paragraph_data / get_paragraphs_data / Debian822(text) on header-ish, control-file, well-formed and raw '
+             'Unicode texts, all sequences of <=5/6 repeated-name fields, and the executable statement checks word coverage '
+             'and the merge equation on the implementation.',
         note=TRUST + 'email.message_from_string is environment code: modelled (Model/Email.v), validated by co-execution, not verified.',
-        technique='Rocq proof (partial) + differential co-execution against the Python code and the stdlib email parser',
+        technique='Rocq proof (state-machine and loop invariants) + differential co-execution against the Python code and the stdlib email parser',
     ),
     'C09': dict(
         ref='5.9',
